@@ -27,6 +27,14 @@ def _events(ctx, variant):
             a = body.term_operand(t["a"][1])
             if a[0] == "agg" and a[2] == variant:
                 out.append((body, bi, t))
+        # an event put on the channel's sender directly (not through send_event) is an announcement all the same
+        if body.name == SEND_EVENT or body.name.startswith(SEND_EVENT + "::"):
+            continue
+        for bi, t, p in body.calls():
+            if p and "mpsc" in p and p.split("::")[-1] in ("send", "try_send") and len(t["a"]) > 1:
+                a = body.term_operand(t["a"][1])
+                if a[0] == "agg" and a[1].endswith("DataChannelEvent") and a[2] == variant:
+                    out.append((body, bi, t))
     return out
 
 
